@@ -85,8 +85,10 @@ def gen(rng, t, depth):
         if r < 0.27:
             return ("pos", "int", gen(rng, "int", depth - 1))
         op = rng.choice(("+", "-", "*", "/", "%", "&", "|", "^", "<<", ">>", "/", "%", "<<", ">>"))
+        if rng.random() < 0.04:
+            op = ">>>"       # not in the supported subset: rejected, or - if ever accepted - the ECMAScript zero-fill shift
         b = gen(rng, "int", depth - 1)
-        if op in ("<<", ">>") and rng.random() < 0.7:
+        if op in ("<<", ">>", ">>>") and rng.random() < 0.7:
             n = rng.choice((0, 1, 2, 3, 8, 16, 31, 32, 33, 61, 62, 63, 64, 65))
             b = ("lit", "int", n, str(n))
         return (op, "int", gen(rng, "int", depth - 1), b)
@@ -187,6 +189,10 @@ def ev(e):
         return chk(q if k == "/" else a - q * b)
     if k in ("&", "|", "^"):
         return chk({"&": a & b, "|": a | b, "^": a ^ b}[k])
+    if k == ">>>":
+        if not (-2 ** 31 <= a < 2 ** 32) or not (0 <= b < 32):
+            raise Undef("operand outside 32 bits (not judged)")
+        return (a % 2 ** 32) >> b
     if k in ("<<", ">>"):
         if b < 0:
             raise Undef("negative shift")
@@ -196,7 +202,7 @@ def ev(e):
     raise ValueError(k)
 
 
-PREC = {"|": 6, "^": 7, "&": 8, "==": 9, "!=": 9, "===": 9, "!==": 9, "<": 10, "<=": 10, ">": 10, ">=": 10, "<<": 11, ">>": 11,
+PREC = {"|": 6, "^": 7, "&": 8, "==": 9, "!=": 9, "===": 9, "!==": 9, "<": 10, "<=": 10, ">": 10, ">=": 10, "<<": 11, ">>": 11, ">>>": 11,
         "+": 12, "-": 12, "*": 13, "/": 13, "%": 13}
 
 
@@ -300,6 +306,13 @@ def run(tier, seed, replay=None):
         src = "import qmluic.QtWidgets\nQWidget {\n VfWidget {\n  id: o0\n  sval: %s\n }\n}\n" % lit
         jobs.append({"id": "j%d" % len(jobs), "source": src, "modes": ["generate"], "want": ["ui"]})
         index.append((-1, ("o0", "sval", "str", ("lit", "str", denotes, lit), lit)))
+    # operators outside the supported subset with a defined ECMAScript meaning: rejected, or embedded with that meaning
+    for a in (-8, -1, -2147483648, -5, 5, 1024, 2147483647, 4294967295):
+        for b in (0, 1, 3, 24, 28, 31):
+            e = (">>>", "int", ("neg", "int", ("lit", "int", -a, str(-a))) if a < 0 else ("lit", "int", a, str(a)), ("lit", "int", b, str(b)))
+            src = "import qmluic.QtWidgets\nQWidget {\n VfWidget {\n  id: o0\n  ival: %s\n }\n}\n" % pr(e)
+            jobs.append({"id": "j%d" % len(jobs), "source": src, "modes": ["generate"], "want": ["ui"]})
+            index.append((-1, ("o0", "ival", "int", e, pr(e))))
     if replay:
         rp = json.load(open(replay))
         keep = [i for i, j in enumerate(jobs) if j["source"] == rp.get("qml")]
